@@ -121,7 +121,8 @@ pub fn check(c: &Case, st: &mut Stats) -> Check {
             }
             let (cp, kinds): (usize, String) = match &c.msg {
                 Msg::Req(r) => (r.change_port_count(), format!("{}:attrs={}:{}", if r.magic { "magic" } else { "classic" }, r.attrs.len().min(4), if r.attr_bytes().len() > 255 { "len>255" } else { "len<=255" })),
-                _ => (0, "padded-attributes".to_string()),
+                Msg::Padded(p) => (p.change_port_count(), "padded-attributes".to_string()),
+                _ => (0, String::new()),
             };
             st.class(&format!("request:{}:{}", kinds, fam));
             if cp > 0 {
